@@ -67,7 +67,8 @@ ASSUMPTIONS = [
     "write overlapping it); two writes that overlap each other may survive in either order; this is weaker than linearizability",
     "get_sync is a read of zero duration issued between two deliveries; it is judged by the same rule",
     "a scan is judged per key of its range with the scan's own interval, plus shape (sorted, unique, inside the range)",
-    "values are never None (None is the API's 'absent'); SizeTieredCompaction(min_sstables=1) is outside the input domain",
+    "values are never None (None is the API's 'absent'); 15-20 % of the writes store a falsy value (0, 0.0, False, '', (), [], {}), each at "
+    "most once per key so values stay unique per key; values are compared by type and repr (0, 0.0 and False are different values); SizeTieredCompaction(min_sstables=1) is outside the input domain",
     "the disk= Resource parameter of LSMTree/BTree is accepted but never used by the repo, so disk contention cannot be injected",
     "snapshot isolation is judged on committed transactions only and the snapshot may be any commit prefix, not necessarily the one "
     "at begin (weaker reading); SERIALIZABLE is judged on committed transactions via conflict-graph acyclicity",
@@ -85,6 +86,7 @@ EXPECTED_PROBES = [
     "probe.tx_overlap", "probe.tx_read_own_write", "probe.tx_mixed_levels_committed",
     "probe.non_serializable_commit_wrote_key_read_by_open_serializable_tx", "probe.tx_commit_inside_another_commit_latency",
     "probe.concurrent_flushes_with_different_write_times", "probe.second_instance_ran_alongside",
+    "probe.read_returned_falsy_value", "probe.tx_read_returned_falsy_value",
     "probe.sync_api_op_in_history", "probe.preloaded_through_put_sync", "probe.synchronous_flush_in_history",
     "probe.tx_commit_in_storage_history", "probe.l0_holds_sync_and_generator_flush_tables", "probe.mixed_origin_l0_tables_compacted",
 ]
@@ -133,10 +135,43 @@ R_MIX = (0, 0, 70, 30)
 M_MIX = (35, 15, 35, 15)
 
 
+PUT_LIKE = ("put", "put_sync", "txput")
+
+
+def _fv_pairs(sc):
+    """(key index, falsy value index) of every write of the primary history."""
+    if sc.get("kind") == "tx":
+        return [(o.get("k"), o.get("fv")) for t in sc.get("txs") or [] if isinstance(t, dict) for o in t.get("ops") or []
+                if isinstance(o, dict) and o.get("op") == "w"]
+    out = [(o.get("k"), o.get("fv")) for c in sc.get("clients") or [] if isinstance(c, dict) for o in c.get("ops") or []
+           if isinstance(o, dict) and o.get("op") in PUT_LIKE]
+    out += [(e.get("k"), e.get("fv")) for e in sc.get("preload") or [] if isinstance(e, dict)]
+    return out
+
+
+def _add_falsy(rng, sc):
+    """A share of the writes stores a falsy value (0, 0.0, False, "", (), [], {}) instead of its unique string; each of the
+    seven at most once per key, so all values written to one key stay distinct (compared by type and repr)."""
+    used = {}
+    if sc["kind"] == "tx":
+        S.assign_falsy(rng, [o for t in sc["txs"] for o in t["ops"] if o["op"] == "w"], 0.2, used)
+    else:
+        S.assign_falsy(rng, [o for c in sc["clients"] for o in c["ops"] if o["op"] in PUT_LIKE], 0.15, used)
+        pre = []
+        for ki in sc.get("preload") or []:
+            e = {"k": ki}
+            S.assign_falsy(rng, [e], 0.2, used)
+            pre.append(e if "fv" in e else ki)
+        sc["preload"] = pre
+    if sc.get("twin"):
+        S.assign_falsy(rng, [o for o in sc["twin"]["ops"] if o["op"] in ("put", "put_sync", "tx")], 0.25, {})
+
+
 def gen(rng, tier):
     sc = _gen_one(rng, tier)
     if rng.random() < 0.25:
         sc["twin"] = _gen_twin(rng, sc["kind"])
+    _add_falsy(rng, sc)
     return sc
 
 
@@ -319,20 +354,20 @@ class Twin(Entity):
             if isinstance(k, bool) or not isinstance(k, int) or not 0 <= k < 64:
                 raise InvalidScenario("twin key")
             key, kind = self.keys[k % len(self.keys)], op.get("op")
-            val = f"w{i}"
+            val = S.make_value(op, f"w{i}")
             if kind == "put":
                 yield from st.put(key, val)
-                model[key] = val
+                model[key] = S.canon(val)
             elif kind == "put_sync":
                 st.put_sync(key, val)
-                model[key] = val
+                model[key] = S.canon(val)
             elif kind == "delete":
                 if not hasattr(st, "delete"):
                     raise InvalidScenario("no delete")
                 yield from st.delete(key)
                 model.pop(key, None)
             elif kind in ("get", "get_sync"):
-                got = (yield from st.get(key)) if kind == "get" else st.get_sync(key)
+                got = S.canon((yield from st.get(key)) if kind == "get" else st.get_sync(key))
                 if got != model.get(key):
                     self.bad = (f"C14/twin-instance-isolated/{self.cls}/sequential-read-differs-from-own-writes",
                                 f"second {self.cls} instance in the same simulation: {kind}({key}) returned {got!r}, its only client "
@@ -340,7 +375,7 @@ class Twin(Entity):
                     return
             elif kind == "tx":
                 tx = yield from self.tm.begin()
-                got = yield from tx.read(key)
+                got = S.canon((yield from tx.read(key)))
                 yield from tx.write(key, val)
                 ok = yield from tx.commit()
                 if got != model.get(key) or not ok:
@@ -349,7 +384,7 @@ class Twin(Entity):
                                 f"the only transaction running on the second manager (read+write {key}) "
                                 f"{'was aborted' if not ok else f'read {got!r}, expected {model.get(key)!r}'}")
                     return
-                model[key] = val
+                model[key] = S.canon(val)
             else:
                 raise InvalidScenario("twin op kind")
             self.ops_done += 1
@@ -422,9 +457,12 @@ class StoreRun:
         if not isinstance(pre, list):
             raise InvalidScenario("preload")
         for i, ki in enumerate(pre):
+            fvop = {}
+            if isinstance(ki, dict):  # {"k": index, "fv": falsy value index}
+                fvop, ki = ki, ki.get("k")
             key = self.keys[S.check_index(ki, len(self.keys))]
-            val = f"p{i}"
-            h = self.hist.invoke("preload", "put", key, val)
+            val = S.make_value(fvop, f"p{i}")
+            h = self.hist.invoke("preload", "put", key, S.canon(val))
             self.writes[key].append(h)
             self.sync_call(self.store.put_sync, key, val)
             self.hist.complete(h)
@@ -458,7 +496,7 @@ class StoreRun:
         if self.is_btree:
             if opkind in ("get", "scan") and cap is not None and cap["splits"] != self.store._total_splits:
                 return "traversal-started-before-concurrent-split"
-            if opkind == "get" and self.store.get_sync(key) in allowed:
+            if opkind == "get" and S.canon(self.store.get_sync(key)) in allowed:
                 return "traversal-missed-present-key"
             return "tree-content-wrong"
         return "content-wrong"
@@ -471,6 +509,8 @@ class StoreRun:
             self.bump("probe.read_overlaps_write_same_key")
         if allowed == {None} and ws:
             self.bump("probe.read_of_deleted_key")
+        if isinstance(got, tuple) and got[:1] == ("value",):
+            self.bump("probe.read_returned_falsy_value")
         if got is S.TOMB:
             self.fail(f"{opkind}-regular", "tombstone-sentinel-returned", f"{opkind} of {key} returned the tombstone sentinel")
             return
@@ -516,7 +556,7 @@ class StoreRun:
         for key in self.keys:
             cap = self.capture(key)
             try:
-                got = self.store.get_sync(key)
+                got = S.canon(self.store.get_sync(key))
             except Exception as exc:  # repo code raising inside a plain read is a violation
                 sig = repo_exception_sig(exc)
                 if sig is None:
@@ -559,8 +599,8 @@ class Client(Entity):
             if kind in ("put_sync", "get_sync", "delete_sync", "txput"):
                 R.bump("probe.sync_api_op_in_history")
             if kind == "put_sync":
-                val = f"v{self.idx}.{i}"
-                h = hist.invoke(self.idx, "put", key, val)
+                val = S.make_value(op, f"v{self.idx}.{i}")
+                h = hist.invoke(self.idx, "put", key, S.canon(val))
                 R.writes[key].append(h)
                 R.sync_call(store.put_sync, key, val)
                 hist.complete(h)
@@ -572,8 +612,8 @@ class Client(Entity):
                 store.delete_sync(key)
                 hist.complete(h)
             elif kind == "txput":
-                val = f"v{self.idx}.{i}"
-                h = hist.invoke(self.idx, "put", key, val)
+                val = S.make_value(op, f"v{self.idx}.{i}")
+                h = hist.invoke(self.idx, "put", key, S.canon(val))
                 R.writes[key].append(h)
                 tx = yield from R.tm.begin()
                 yield from tx.write(key, val)
@@ -592,7 +632,7 @@ class Client(Entity):
             elif kind == "get_sync":
                 h = hist.invoke(self.idx, "get", key)
                 cap = R.capture(key)
-                got = store.get_sync(key)
+                got = S.canon(store.get_sync(key))
                 hist.complete(h, got)
                 R.judge("get_sync", key, h["inv"], h["ret"], got, cap, h["id"])
             if kind in ("put_sync", "get_sync", "delete_sync", "txput"):
@@ -600,8 +640,8 @@ class Client(Entity):
                     return
                 continue
             if kind == "put":
-                val = f"v{self.idx}.{i}"
-                h = hist.invoke(self.idx, "put", key, val)
+                val = S.make_value(op, f"v{self.idx}.{i}")
+                h = hist.invoke(self.idx, "put", key, S.canon(val))
                 R.writes[key].append(h)
                 yield from store.put(key, val)
                 hist.complete(h)
@@ -618,7 +658,7 @@ class Client(Entity):
                     self._bloom_probe(key)
                     if cap["view"] and cap["view"][0][0] == "imm":
                         R.bump("probe.read_served_by_immutable_memtable")
-                got = yield from store.get(key)
+                got = S.canon((yield from store.get(key)))
                 hist.complete(h, got)
                 if R.is_btree and cap["splits"] != store._total_splits:
                     R.bump("probe.btree_split_during_get")
@@ -636,7 +676,7 @@ class Client(Entity):
                 h = hist.invoke(self.idx, "scan", None, None, lo=lo, hi=hi)
                 caps = {k: R.capture(k) for k in rng_keys}
                 R.note_read_start(self.gen, rng_keys)
-                got = yield from store.scan(lo, hi)
+                got = [(k, S.canon(v)) for k, v in (yield from store.scan(lo, hi))]
                 hist.complete(h, [[k, (v if v is not S.TOMB else "<TOMBSTONE>")] for k, v in got])
                 self._judge_scan(h, got, rng_keys, lo, hi, caps)
             else:
@@ -878,14 +918,14 @@ class TxClient(Entity):
                 own = key in rec["writes"]
                 inv = R.stamp()
                 sp = getattr(R.store, "_total_splits", None)
-                got = yield from tx.read(key)
+                got = S.canon((yield from tx.read(key)))
                 rec["reads"].append({"key": key, "got": got, "inv": inv, "ret": R.stamp(), "own": own,
                                      "expect_own": rec["writes"].get(key),
                                      "split": sp is not None and sp != R.store._total_splits})
             elif op.get("op") == "w":
-                val = f"t{self.idx}.{i}"
+                val = S.make_value(op, f"t{self.idx}.{i}")
                 yield from tx.write(key, val)
-                rec["writes"][key] = val
+                rec["writes"][key] = S.canon(val)
             else:
                 raise InvalidScenario("tx op")
         g = S.gap_s({"gap_ns": self.spec.get("end_gap_ns", 0)})
@@ -927,6 +967,8 @@ def _judge_tx(R: TxRun, counters: dict):
     reads = sorted(((rd, r) for r in recs for rd in r["reads"]), key=lambda x: x[0]["ret"])
     for rd, r in reads:
         k, got = rd["key"], rd["got"]
+        if isinstance(got, tuple) and got[:1] == ("value",):
+            counters["probe.tx_read_returned_falsy_value"] = 1
         if rd["own"]:
             counters["probe.tx_read_own_write"] = 1
             if got != rd["expect_own"]:
@@ -954,7 +996,7 @@ def _judge_tx(R: TxRun, counters: dict):
                 f"(commit stamp, value, tx): {vs}")
     for k in R.keys:
         try:
-            final = R.store.get_sync(k)
+            final = S.canon(R.store.get_sync(k))
         except Exception as exc:  # noqa: BLE001
             esig = repo_exception_sig(exc)
             if esig is None:
@@ -1134,6 +1176,7 @@ def run_tx(sc):
 def run(sc):
     if not isinstance(sc, dict) or "engine" not in sc or "keys" not in sc:
         raise InvalidScenario("scenario")
+    S.check_fv_unique(_fv_pairs(sc))
     if sc.get("kind") == "tx":
         return run_tx(sc)
     if sc.get("kind") in ("lsm", "btree", "kv"):
